@@ -2,10 +2,17 @@
 //@ include prelude/core.rs
 //@ include prelude/ipld.rs
 //@ include prelude/rt.rs
+//@ include prelude/singletons.rs
+macro_rules! log_trace { ($($t:tt)*) => { () } }
 verus! {
 
 //@ item actors/init/src/state.rs State
 //@ item actors/init/src/state.rs AddressMap
+//@ item actors/init/src/types.rs ExecParams
+//@ item actors/init/src/types.rs ExecReturn
+//@ item actors/init/src/types.rs Exec4Params
+//@ item actors/init/src/types.rs Exec4Return
+//@ include prelude/init_assumed.rs
 
 pub open spec fn amap(s: State) -> Map<Address, ActorID> { map2_decode::<Address, ActorID>(s.address_map) }
 /// every ID handed out so far is below the counter: a fresh ID (== counter) is in nobody's range
@@ -28,14 +35,14 @@ pub open spec fn ids_below(m: Map<Address, ActorID>, next: ActorID) -> bool {
             &&& (!existing ==> id == old(self).next_id && final(self).next_id == old(self).next_id + 1
                     && forall|k: Address| m0.dom().contains(k) ==> #[trigger] m0[k] != id)
             // an existing delegated (f4) mapping is recalled, not re-allocated
-            &&& (existing ==> delegated_addr.is_some() && m0.dom().contains(*delegated_addr->Some_0)
-                    && id == m0[*delegated_addr->Some_0] && final(self).next_id == old(self).next_id)
+            &&& (existing <==> delegated_addr.is_some() && m0.dom().contains(*delegated_addr->Some_0))
+            &&& (existing ==> id == m0[*delegated_addr->Some_0] && final(self).next_id == old(self).next_id)
             // the stable address was unmapped before and maps to the ID from now on; nothing else changes
             &&& !m0.dom().contains(*robust_addr)
             &&& m1.dom().contains(*robust_addr) && m1[*robust_addr] == id
             &&& (delegated_addr.is_some() ==> m1.dom().contains(*delegated_addr->Some_0) && m1[*delegated_addr->Some_0] == id)
-            &&& forall|k: Address| k != *robust_addr && !(delegated_addr.is_some() && k == *delegated_addr->Some_0) ==>
-                    (m1.dom().contains(k) == m0.dom().contains(k) && (m0.dom().contains(k) ==> #[trigger] m1[k] == m0[k]))
+            &&& forall|k: Address| #![trigger m1.dom().contains(k)] #![trigger m1[k]] k != *robust_addr && !(delegated_addr.is_some() && k == *delegated_addr->Some_0) ==>
+                    (m1.dom().contains(k) == m0.dom().contains(k) && (m0.dom().contains(k) ==> m1[k] == m0[k]))
             &&& ids_below(m1, final(self).next_id)
         }),
 //@ end
@@ -49,6 +56,95 @@ pub open spec fn ids_below(m: Map<Address, ActorID>, next: ActorID) -> bool {
             Some(Type::Miner) => rt_builtin_type(*caller) == Some(Type::Power),
             _ => false,
         },
+//@ end
+
+// ======================= Exec / Exec4: the methods =======================
+/// the state invariant the ID allocator relies on (established by the constructor, kept by map_addresses_to_id)
+pub open spec fn init_inv(s: State) -> bool { s.next_id < u64::MAX && ids_below(amap(s), s.next_id) }
+
+//@ fn actors/init/src/lib.rs Actor::exec closure=0 as=exec_tx0 params="s: &mut State, rt: &Rt, robust_address: Address" retty="Result<(ActorID, bool), ActorError>" ret=res
+    requires init_inv(*old(s)),
+    ensures
+        res.is_ok() ==> ({
+            let (id, existing) = res->Ok_0;
+            &&& !existing && id == old(s).next_id && final(s).next_id == old(s).next_id + 1
+            &&& (forall|k: Address| amap(*old(s)).dom().contains(k) ==> #[trigger] amap(*old(s))[k] != id)
+            &&& amap(*final(s)).dom().contains(robust_address) && amap(*final(s))[robust_address] == id && !amap(*old(s)).dom().contains(robust_address)
+            &&& (forall|k: Address| #![trigger amap(*final(s)).dom().contains(k)] #![trigger amap(*final(s))[k]] k != robust_address ==> (amap(*final(s)).dom().contains(k) == amap(*old(s)).dom().contains(k)
+                    && (amap(*old(s)).dom().contains(k) ==> amap(*final(s))[k] == amap(*old(s))[k])))
+            &&& init_inv(*final(s)) || final(s).next_id == u64::MAX
+        }),
+//@ end
+//@ fn actors/init/src/lib.rs Actor::exec4 closure=0 as=exec4_tx0 params="s: &mut State, rt: &Rt, robust_address: Address, delegated_address: Address" retty="Result<(ActorID, bool), ActorError>" ret=res
+    requires init_inv(*old(s)),
+    ensures
+        res.is_ok() ==> ({
+            let (id, existing) = res->Ok_0;
+            let m0 = amap(*old(s));
+            &&& existing == m0.dom().contains(delegated_address)
+            &&& (existing ==> id == m0[delegated_address] && final(s).next_id == old(s).next_id)
+            &&& (!existing ==> id == old(s).next_id && final(s).next_id == old(s).next_id + 1 && (forall|k: Address| m0.dom().contains(k) ==> #[trigger] m0[k] != id))
+            &&& amap(*final(s)).dom().contains(robust_address) && amap(*final(s))[robust_address] == id
+            &&& amap(*final(s)).dom().contains(delegated_address) && amap(*final(s))[delegated_address] == id
+            &&& init_inv(*final(s)) || final(s).next_id == u64::MAX
+        }),
+//@ end
+
+//@ fn actors/init/src/lib.rs Actor::exec free tx0="State;exec_tx0;&mut __vx_st, rt, robust_address" ret=res suball0="log :: trace !=>log_trace !" 
+    requires
+        !old(rt).in_tx@, old(rt).sends@.len() == 0, old(rt).created@.len() == 0,
+        init_inv(rt_state::<State>(old(rt).state_id@)),
+        old(rt).msg.caller.proto == 0,
+    ensures
+        res.is_ok() ==> ({
+            let s0 = rt_state::<State>(old(rt).state_id@);
+            let id = s0.next_id;
+            let caller_code = rt_code_of(old(rt).msg.caller.id);
+            // only permitted creator/code combinations: anyone may create multisigs and payment channels, only the power actor miners
+            &&& caller_code.is_some()
+            &&& match rt_builtin_type(params.code_cid) {
+                    Some(Type::Multisig) => true,
+                    Some(Type::PaymentChannel) => true,
+                    Some(Type::Miner) => rt_builtin_type(caller_code->Some_0) == Some(Type::Power),
+                    _ => false,
+                }
+            // exactly one actor is created, with the requested code, under the FRESH id (the old counter value, which no address mapped to)
+            &&& final(rt).created@ =~= seq![CreateRec { code: params.code_cid, id: id, predictable: None }]
+            &&& (forall|k: Address| amap(s0).dom().contains(k) ==> #[trigger] amap(s0)[k] != id)
+            // its constructor is the one message sent, with the value received, and it succeeded
+            &&& final(rt).sends@.len() == 1 && final(rt).sends@[0].to == (Address { id: id, proto: 0 }) && final(rt).sends@[0].method == METHOD_CONSTRUCTOR
+            &&& final(rt).sends@[0].value == old(rt).msg.value_received@ && final(rt).sends@[0].ok
+            // the result names that id and the stable address
+            &&& res->Ok_0.id_address == (Address { id: id, proto: 0 })
+            &&& res->Ok_0.robust_address == rt_new_actor_address(0, 0)
+        }),
+        // nothing is created unless the id was allocated in this very call
+        res.is_err() ==> final(rt).created@.len() <= 1,
+//@ end
+
+//@ fn actors/init/src/lib.rs Actor::exec4 free tx0="State;exec4_tx0;&mut __vx_st, rt, robust_address, delegated_address" ret=res suball0="log :: trace !=>log_trace !"
+    requires
+        !old(rt).in_tx@, old(rt).sends@.len() == 0, old(rt).created@.len() == 0,
+        init_inv(rt_state::<State>(old(rt).state_id@)),
+        old(rt).msg.caller.proto == 0,
+    ensures
+        res.is_ok() ==> ({
+            let s0 = rt_state::<State>(old(rt).state_id@);
+            let m0 = amap(s0);
+            let f4 = f4_addr_spec(old(rt).msg.caller.id, params.subaddress);
+            let existing = m0.dom().contains(f4);
+            let id = if existing { m0[f4] } else { s0.next_id };
+            // only the address manager may deploy under a delegated (f4) address, and the address is in ITS namespace
+            &&& old(rt).msg.caller == EAM_ACTOR_ADDR
+            // a deployment never overwrites an existing actor other than a placeholder
+            &&& (existing ==> rt_code_of(id).is_some() && rt_builtin_type(rt_code_of(id)->Some_0) == Some(Type::Placeholder))
+            &&& (!existing ==> forall|k: Address| m0.dom().contains(k) ==> #[trigger] m0[k] != id)
+            &&& final(rt).created@ =~= seq![CreateRec { code: params.code_cid, id: id, predictable: Some(f4) }]
+            &&& final(rt).sends@.len() == 1 && final(rt).sends@[0].to == (Address { id: id, proto: 0 }) && final(rt).sends@[0].method == METHOD_CONSTRUCTOR
+            &&& final(rt).sends@[0].value == old(rt).msg.value_received@ && final(rt).sends@[0].ok
+            &&& res->Ok_0.id_address == (Address { id: id, proto: 0 })
+        }),
+        /*C11*/ res.is_ok() ==> final(rt).validated@.is_some(),
 //@ end
 
 } // verus!
